@@ -957,6 +957,7 @@ func c13Blocks(g *hx.WireGen, grams []*hx.CmdGrammar, c *hx.Client, twin *redka.
 	// of its own type, on keys of another type, and with its first key of its own type and the
 	// others of another type (a move whose destination is refused after the source was read)
 	saved := g.Keys
+	blockNo := 0
 	wrongOf := map[string]string{"string": "list", "list": "string", "set": "hash", "hash": "zset", "zset": "set"}
 	for _, cg := range grams {
 		if len(sum.Failures) > 0 {
@@ -991,7 +992,8 @@ func c13Blocks(g *hx.WireGen, grams []*hx.CmdGrammar, c *hx.Client, twin *redka.
 				args = g.Vector(cg, 0)
 			}
 			g.ResetKeySeq()
-			if !runBlock([][]string{{"SET", "marker1", "1"}, args, {"SET", "marker2", "2"}}) {
+			blockNo++
+			if !runBlock([][]string{{"SET", "marker1", fmt.Sprint("a", blockNo)}, args, {"SET", "marker2", fmt.Sprint("b", blockNo)}}) {
 				g.Keys = saved
 				return
 			}
@@ -1028,6 +1030,61 @@ var sweepSetup = map[string][][]string{
 // same type with overlapping content (so that multi-key commands have something to aggregate)
 var sweepKeys = map[string][]string{"string": {"ks", "ks2"}, "hash": {"kh", "kh2"}, "list": {"kl", "kl2"}, "set": {"ke", "ke2"}, "zset": {"kz", "kz2"}}
 
+// handVectors are the swept invocations of a command whose parser is written by hand (no
+// combinator tree to derive them from): every key role on the typed keys and on a missing key,
+// field / member / value arguments including the empty string, patterns including the empty one.
+func handVectors(cg *hx.CmdGrammar, fam string) [][]string {
+	k1, k2 := sweepKeys[fam][0], sweepKeys[fam][1]
+	n := cg.Name
+	var out [][]string
+	add := func(a ...string) { out = append(out, append([]string{n}, a...)) }
+	switch n {
+	case "keys":
+		for _, p := range []string{"", "*", "k*", "k?", "[k]*", k1, "k[a-z]2", "*2"} {
+			add(p)
+		}
+	case "rename", "renamenx":
+		add(k1, k2)
+		add(k1, "kn")
+		add("kn", k1)
+		add(k1, k1)
+	case "mget":
+		add(k1, "kn", k2, k1)
+	case "hexists", "hget":
+		for _, f := range []string{"f1", "f3", "", "nofield", "F1"} {
+			add(k1, f)
+		}
+		add("kn", "f1")
+	case "hsetnx":
+		add(k1, "f1", "new")
+		add(k1, "f9", "")
+		add(k1, "", "v")
+		add("kn", "f1", "v")
+	case "getset", "setnx":
+		add(k1, "new")
+		add(k2, "")
+		add("kn", "v")
+	case "incr", "decr", "incrby", "decrby":
+		if len(cg.Arity) > 0 && cg.Arity[0] == 2 || n == "incrby" || n == "decrby" {
+			add(k1, "5")
+			add(k2, "5")
+			add("kn", "-3")
+		} else {
+			add(k1)
+			add(k2)
+			add("kn")
+		}
+	case "spop", "srandmember", "randomkey", "flushdb", "flushall", "dbsize", "config", "command", "select":
+		return nil
+	default:
+		// one key argument
+		add(k1)
+		add(k2)
+		add("kn")
+	}
+	return out
+}
+
 func c13Sweep(g *hx.WireGen, grams []*hx.CmdGrammar, one func(i int, args []string) bool) {
 	saved := g.Keys
 	defer func() { g.Keys = saved }()
@@ -1047,7 +1104,23 @@ func c13Sweep(g *hx.WireGen, grams []*hx.CmdGrammar, one func(i int, args []stri
 		if fam == "key" {
 			fams = []string{"string", "list", "zset"}
 		}
-		if _, ok := sweepSetup[fams[0]]; !ok || cg.Combs == nil {
+		if _, ok := sweepSetup[fams[0]]; !ok {
+			continue
+		}
+		if cg.Combs == nil {
+			// hand-written parsers: a few scripted vectors per command on the typed keys
+			for _, f := range fams {
+				for _, args := range handVectors(cg, f) {
+					for _, setup := range sweepSetup[f] {
+						if !run(setup) {
+							return
+						}
+					}
+					if !run(args) {
+						return
+					}
+				}
+			}
 			continue
 		}
 		switch cg.Name {
